@@ -6,6 +6,7 @@ import (
 	"fmt"
 	"math/rand"
 	"sort"
+	"strconv"
 	"strings"
 
 	"github.com/cloudwego/gopkg/container/strmap"
@@ -599,6 +600,65 @@ func bigMapMonitor(c *Ctx) {
 		}
 	}
 	c.AddExtraCount("big_map_keys_compared_in_go", int64(n))
+	// sizes around every step of the table (load factor 0.75 of each power of two from 2^13 to 2^18) and around
+	// 2^16 items, through the constructors in turn: a loader may choose its algorithm by size
+	var sizes []int
+	for p2 := 13; p2 <= c.Pick(17, 18); p2++ {
+		t := 3 << (p2 - 2)
+		sizes = append(sizes, t-1, t, t+1)
+	}
+	sizes = append(sizes, 50000, 65534, 65535, 65536, 65537)
+	for si, sz := range sizes {
+		ks := smKeys(rand.New(rand.NewSource(c.Seed+int64(sz))), sz)
+		want := map[string]int{}
+		for i, k := range ks {
+			want[k] = i + 1
+		}
+		for ctor := 0; ctor < 3; ctor++ {
+			if !c.Thorough() && ctor != si%3 {
+				continue
+			}
+			var get func(string) (int, bool)
+			var ln int
+			switch ctor {
+			case 0:
+				vs := make([]int, len(ks))
+				for i := range vs {
+					vs[i] = i + 1
+				}
+				mm := strmap.NewFromSlice(ks, vs)
+				get, ln = mm.Get, mm.Len()
+			case 1:
+				mm := strmap.NewFromMap(want)
+				get, ln = mm.Get, mm.Len()
+			default:
+				sv := make([]string, len(ks))
+				for i := range sv {
+					sv[i] = strconv.Itoa(i + 1)
+				}
+				mm := strmap.NewStr2StrFromSlice(ks, sv)
+				get, ln = func(k string) (int, bool) { v, ok := mm.Get(k); x, _ := strconv.Atoi(v); return x, ok }, mm.Len()
+			}
+			if ln != len(want) {
+				c.GoViolation("strmap-big", "strmap/big/len", map[string]int{"n": sz, "ctor": ctor}, fmt.Sprintf("Len %d, Go map %d", ln, len(want)))
+				return
+			}
+			missing := 0
+			for k, v := range want {
+				if got, ok := get(k); !ok || got != v {
+					missing++
+				}
+			}
+			if _, ok := get("certainly-not-a-key"); ok {
+				missing++
+			}
+			if missing > 0 {
+				c.GoViolation("strmap-big", "strmap/big/get", map[string]int{"n": sz, "ctor": ctor}, fmt.Sprintf("%d of %d loaded keys answered unlike the Go map", missing, len(want)))
+				return
+			}
+			c.AddExtraCount("big_map_keys_compared_in_go", int64(sz))
+		}
+	}
 	// giant keys and values (up to 16 MiB + 5 and, thorough, 64 MiB): lengths beyond any narrow size field
 	lens := []int{65535, 65536, 65537, 1 << 20, 1<<24 - 1, 1 << 24, 1<<24 + 5}
 	if c.Thorough() {
@@ -670,7 +730,7 @@ func bigMapMonitor(c *Ctx) {
 }
 
 func checkC07(c *Ctx) {
-	c.rule = "MC: every subset of a key universe with the empty key and prefixes ({\"\",a,ab[,b]}) x every assignment of keys to slots (the hash is an arbitrary function chosen at load) x every slot-sorted item order x histories of 2 loads/failed loads/never loaded: Get = Go-map semantics for every probe and every slot the probe may hash to. TRACE: fresh instances of StrMap[int], StrMap[struct], Str2Str per size class (random maphash seeds => many chain shapes), reload histories (grow, shrink, failed load), never-loaded and empty instances, instances made by the four constructors and a zero-value Str2Str, adversarial collision chains of 9..40 keys in one slot (keys chosen against the instance's seed through the slot hook), maps up to 5000 keys; every load must be an enabled Load action on the REAL table read through the hook (slot-sorted, first-index table, prime slot count, Item enumeration), every Get must agree with MapAbs and with ImplGet on the real table. Maps of 10^5 keys and maps with giant keys / values (2^16 +-1, 2^20, 2^24 +-1 bytes) are compared with a Go map in Go (monitor)."
+	c.rule = "MC: every subset of a key universe with the empty key and prefixes ({\"\",a,ab[,b]}) x every assignment of keys to slots (the hash is an arbitrary function chosen at load) x every slot-sorted item order x histories of 2 loads/failed loads/never loaded: Get = Go-map semantics for every probe and every slot the probe may hash to. TRACE: fresh instances of StrMap[int], StrMap[struct], Str2Str per size class (random maphash seeds => many chain shapes), reload histories (grow, shrink, failed load), never-loaded and empty instances, instances made by the four constructors and a zero-value Str2Str, adversarial collision chains of 9..40 keys in one slot (keys chosen against the instance's seed through the slot hook), maps up to 5000 keys; every load must be an enabled Load action on the REAL table read through the hook (slot-sorted, first-index table, prime slot count, Item enumeration), every Get must agree with MapAbs and with ImplGet on the real table. Maps of 10^5 keys and maps with giant keys / values (2^16 +-1, 2^20, 2^24 +-1 bytes) are compared with a Go map in Go (monitor). The Go-compared big maps sweep the sizes around every table step (0.75 x 2^13..2^18) and around 2^16 items through the three constructors."
 	if c.Thorough() {
 		c.MC("MC_StrMap.tla", "MC_StrMap_thorough.cfg", 12)
 	} else {
